@@ -438,6 +438,7 @@ func c20JoinCase(e *env, ids []string) {
 }
 
 func runC20X(e *env) {
+	runC20Edge(e)
 	// 6. interceptor chains with explicit entry points
 	r := newRng(e.seed, 22)
 	// every (kind, entry point) combination once per carrier state, from a plain valid identifier
@@ -571,3 +572,223 @@ func runC20X(e *env) {
 }
 
 func c20P(s string) *string { return &s }
+
+// ---- C20.edge: every entry point alone, on carriers the chains never produce (no id, empty id,
+// several ids, conflicting ids); observes whether the continuation (handler / invoker / streamer /
+// next / the caller on a nil error) RAN and which identifier(s) it SAW.
+
+func c20CarrierStr(vals []string) string {
+	switch {
+	case vals == nil:
+		return "none"
+	case len(vals) == 0:
+		return "empty"
+	}
+	return hxs(vals)
+}
+
+func c20EdgeEmit(e *env, entry string, id *string, carrier []string, ran bool, seen string, err error) {
+	ids := "none"
+	if id != nil {
+		ids = hx(*id)
+	}
+	r := "0"
+	if ran {
+		r = "1"
+	} else {
+		seen = "x"
+	}
+	e.emit("C20.edge", entry, ids+" "+c20CarrierStr(carrier), "ran="+r+" seen="+seen+" err="+c20ErrClass(err))
+}
+
+// receivers: id = identifier the receiving side's context already holds (stale), carrier = header / metadata values.
+func c20EdgeRecv(e *env, kind, which byte, stale *string, carrier []string) {
+	base := context.Background()
+	if stale != nil {
+		base = user.InjectOrgID(base, *stale)
+	}
+	ran := false
+	seen := "none"
+	var err error
+	if kind == 'G' {
+		md := metadata.MD{"other-key": []string{"v"}}
+		if carrier != nil {
+			md["x-scope-orgid"] = append([]string{}, carrier...)
+		}
+		in := metadata.NewIncomingContext(base, md)
+		switch which {
+		case 'e':
+			var c context.Context
+			_, c, err = user.ExtractFromGRPCRequest(in)
+			if err == nil {
+				ran, seen = true, c20OrgOf(c)
+			}
+		case 'u':
+			_, err = middleware.ServerUserHeaderInterceptor(in, nil, nil, func(c context.Context, _ interface{}) (interface{}, error) {
+				ran, seen = true, c20OrgOf(c)
+				return nil, nil
+			})
+		default:
+			err = middleware.StreamServerUserHeaderInterceptor(nil, c20FakeServerStream{ctx: in}, nil, func(_ interface{}, ss grpc.ServerStream) error {
+				ran, seen = true, c20OrgOf(ss.Context())
+				return nil
+			})
+		}
+	} else {
+		req := httptest.NewRequest("GET", "http://example/p", nil).WithContext(base)
+		if carrier != nil {
+			req.Header[c20OrgKey] = append([]string{}, carrier...)
+		}
+		switch which {
+		case 'e':
+			var c context.Context
+			_, c, err = user.ExtractOrgIDFromHTTPRequest(req)
+			if err == nil {
+				ran, seen = true, c20OrgOf(c)
+			}
+		case 't':
+			var c context.Context
+			_, c, err = tenant.ExtractTenantIDFromHTTPRequest(req)
+			if err == nil {
+				ran, seen = true, c20OrgOf(c)
+			}
+		default:
+			rec := httptest.NewRecorder()
+			middleware.AuthenticateUser.Wrap(http.HandlerFunc(func(_ http.ResponseWriter, r *http.Request) {
+				ran, seen = true, c20OrgOf(r.Context())
+			})).ServeHTTP(rec, req)
+			if rec.Code == http.StatusUnauthorized && strings.TrimSpace(rec.Body.String()) == user.ErrNoOrgID.Error() {
+				err = user.ErrNoOrgID
+			} else if rec.Code != http.StatusOK {
+				err = fmt.Errorf("middleware answered %d %s", rec.Code, rec.Body.String())
+			}
+		}
+	}
+	c20EdgeEmit(e, "R"+string(kind)+string(which), stale, carrier, ran, seen, err)
+}
+
+// senders: id = identifier in the sending context, carrier = pre-existing header / outgoing metadata values.
+func c20EdgeSend(e *env, kind, which byte, id *string, carrier []string) {
+	ctx := context.Background()
+	if id != nil {
+		ctx = user.InjectOrgID(ctx, *id)
+	}
+	ran := false
+	seen := "none"
+	var err error
+	mdOf := func(c context.Context) string {
+		md, _ := metadata.FromOutgoingContext(c)
+		v, ok := md["x-scope-orgid"]
+		if !ok {
+			return "none"
+		}
+		return c20CarrierStr(v)
+	}
+	if kind == 'G' {
+		base := ctx
+		if carrier != nil {
+			base = metadata.NewOutgoingContext(ctx, metadata.MD{"x-scope-orgid": append([]string{}, carrier...)})
+		}
+		switch which {
+		case 'i':
+			var out context.Context
+			out, err = user.InjectIntoGRPCRequest(base)
+			if err == nil {
+				ran, seen = true, mdOf(out)
+			}
+		case 'u':
+			err = middleware.ClientUserHeaderInterceptor(base, "/m", nil, nil, nil, func(c context.Context, _ string, _, _ interface{}, _ *grpc.ClientConn, _ ...grpc.CallOption) error {
+				ran, seen = true, mdOf(c)
+				return nil
+			})
+		default:
+			_, err = middleware.StreamClientUserHeaderInterceptor(base, &grpc.StreamDesc{}, nil, "/m", func(c context.Context, _ *grpc.StreamDesc, _ *grpc.ClientConn, _ string, _ ...grpc.CallOption) (grpc.ClientStream, error) {
+				ran, seen = true, mdOf(c)
+				return nil, nil
+			})
+		}
+	} else {
+		req := httptest.NewRequest("GET", "http://example/p", nil)
+		if carrier != nil {
+			req.Header[c20OrgKey] = append([]string{}, carrier...)
+		}
+		err = user.InjectOrgIDIntoHTTPRequest(ctx, req)
+		if err == nil {
+			ran = true
+			if v, ok := req.Header[c20OrgKey]; ok {
+				seen = c20CarrierStr(v)
+			}
+		}
+	}
+	c20EdgeEmit(e, "S"+string(kind)+string(which), id, carrier, ran, seen, err)
+}
+
+func runC20Edge(e *env) {
+	gCar := [][]string{nil, {}, {""}, {"a"}, {"a", "a"}, {"a", "b"}, {"", "a"}, {"a|b"}, {"bad/id"}, {"a", "b", "c"}}
+	hCar := [][]string{nil, {""}, {"a"}, {"", "a"}, {"a", "b"}, {"a|b"}, {"bad/id"}, {"a:k=v"}, {"..", "a"}}
+	ids := []*string{nil, c20P("a"), c20P(""), c20P("other")}
+	for _, w := range []byte{'e', 'u', 's'} {
+		for _, c := range gCar {
+			for _, st := range []*string{nil, c20P("stale")} {
+				c20EdgeRecv(e, 'G', w, st, c)
+			}
+			for _, id := range ids {
+				c20EdgeSend(e, 'G', map[byte]byte{'e': 'i', 'u': 'u', 's': 's'}[w], id, c)
+			}
+		}
+	}
+	for _, w := range []byte{'e', 't', 'a'} {
+		for _, c := range hCar {
+			for _, st := range []*string{nil, c20P("stale")} {
+				c20EdgeRecv(e, 'H', w, st, c)
+			}
+		}
+	}
+	for _, c := range hCar {
+		for _, id := range ids {
+			c20EdgeSend(e, 'H', 'h', id, c)
+		}
+	}
+	r := newRng(e.seed, 26)
+	for i := 0; i < 800*e.scale; i++ {
+		var id *string
+		if !r.chance(1, 3) {
+			s := c20RandString(r)
+			if r.chance(1, 2) {
+				s = pick(r, []string{"a", "tenant-1", "", "other"})
+			}
+			id = &s
+		}
+		var car []string
+		if !r.chance(1, 4) {
+			n := r.intn(4)
+			car = make([]string, n)
+			for j := range car {
+				car[j] = pick(r, []string{"a", "", "other", "tenant-1", "a|b"})
+				if id != nil && r.chance(1, 2) {
+					car[j] = *id
+				}
+				if r.chance(1, 8) {
+					car[j] = c20RandString(r)
+				}
+			}
+		}
+		kind := pick(r, []byte{'G', 'H'})
+		if kind == 'H' && car != nil && len(car) == 0 {
+			car = nil
+		}
+		if r.chance(1, 2) {
+			w := pick(r, []byte{'e', 'u', 's'})
+			if kind == 'H' {
+				w = pick(r, []byte{'e', 't', 'a'})
+			}
+			c20EdgeRecv(e, kind, w, id, car)
+		} else {
+			w := pick(r, []byte{'i', 'u', 's'})
+			if kind == 'H' {
+				w = 'h'
+			}
+			c20EdgeSend(e, kind, w, id, car)
+		}
+	}
+}
